@@ -17,7 +17,7 @@ def access_path(node):
             suffix.append('.' + node.attr)
             node = node.value
         elif isinstance(node, ast.Subscript):
-            suffix.append('[*]')
+            suffix.append(_index_token(node.slice))
             node = node.value
         elif isinstance(node, ast.Starred):
             node = node.value
@@ -25,6 +25,16 @@ def access_path(node):
             return node.id, ''.join(reversed(suffix))
         else:
             return None
+
+
+def _index_token(sl):
+    """'[k]' for a constant integer index, '[*]' for anything else (slices, variables)."""
+    if isinstance(sl, ast.Constant) and isinstance(sl.value, int) and not isinstance(sl.value, bool):
+        return '[%d]' % sl.value
+    if isinstance(sl, ast.UnaryOp) and isinstance(sl.op, ast.USub) and isinstance(sl.operand, ast.Constant) \
+            and isinstance(sl.operand.value, int):
+        return '[-%d]' % sl.operand.value
+    return '[*]'
 
 
 def target_names(t):
@@ -163,9 +173,18 @@ class LocalFlow:
         if base in self.params or base not in self.defs:
             return {base + suffix}
         key = (base, suffix)
-        if key in seen:
+        active = ('active', base)
+        if key in seen or active in seen:
+            # `t = t.arg` style self-reference: the other definitions of the name supply the roots
             return set()
         seen.add(key)
+        seen.add(active)
+        try:
+            return self._expand_defs(base, suffix, seen)
+        finally:
+            seen.discard(active)
+
+    def _expand_defs(self, base, suffix, seen):
         res = set()
         for kind, rhs in self.defs[base]:
             if kind == 'update':
